@@ -589,7 +589,7 @@ func codecRule(what string) func(string) string {
 		if tier == "thorough" {
 			d = "depth 2 with the full token alphabet, depth 3 with minimal tokens, and the declared-length sweep (every declared length 0..255 / 0..2100 + 2^k±1 of every length-prefixed slot x exact/short/no content)"
 		}
-		return "grammar-state exploration over the pinned TS 24.501 tables: a state is (message, mandatory-part choice, sequence of optional-element tokens); a token is (slot | junk kind, declared length class, content pattern, availability); transitions append one token; " + d + "; from every state the rendered bytes and every new prefix are executed on the implementation through PlainNasDecode, Gmm/GsmMessageDecode and Decode<Msg>; plus 70 000-octet inputs. " + what
+		return "grammar-state exploration over the pinned TS 24.501 tables: a state is (message, mandatory-part choice, sequence of optional-element tokens); a token is (slot | junk kind, declared length class, content pattern, availability); transitions append one token; " + d + "; from every state the rendered bytes and every new prefix are executed on the implementation through PlainNasDecode, Gmm/GsmMessageDecode and Decode<Msg>; plus 70 000-octet inputs; plus the remaining-length family (each length-prefixed element at its minimum, maximum and a small length, with the rest of the message — well-formed optional elements in table order — sized to every total in windows around 2^8, 2^9 and 2^16 octets" + map[bool]string{true: " and every total 0..600", false: ""}[tier == "thorough"] + ", before and after the element); plus the dependency-directed family (for every hand-written statement the static extraction finds in a decoder case that mentions other elements: those elements jointly, all orders, every length up to minimum+15, maximum and out-of-range neighbours, three content patterns; empty when all decoders have the generated shape). " + what
 	}
 }
 
@@ -634,8 +634,8 @@ func init() {
 	})
 	core.RegisterProp(&core.PropSpec{
 		ID: "C10", Level: "model_checking", Run: codecRun("C10"),
-		Shards: func(string) int { return 16 },
-		Rule:   codecRule("Oracle on every execution (accepted and rejected): input bytes and the capacity behind them unchanged; no byte slice reachable from the decoded message overlaps the input's backing array (address-range test) and, on every 16th case, flipping the input leaves the message unchanged; two decodes agree; on accepted messages encoding leaves the message DeepEqual to an untouched twin, preserves pre-existing buffer contents {0,1,300 octets}, appends exactly the bytes produced into an empty buffer, is repeatable, and every encoding stays unchanged while the next accepted message is encoded (retention)."),
+		Shards:      func(string) int { return 16 },
+		Rule:        codecRule("Oracle on every execution (accepted and rejected): input bytes and the capacity behind them unchanged; no byte slice reachable from the decoded message overlaps the input's backing array (address-range test) and, on every 16th case, flipping the input leaves the message unchanged; two decodes agree; on accepted messages encoding leaves the message DeepEqual to an untouched twin, preserves pre-existing buffer contents {0,1,300 octets}, appends exactly the bytes produced into an empty buffer, is repeatable, and every encoding stays unchanged while the next accepted message is encoded (retention)."),
 		Assumptions: []string{"aliasing is decided by address ranges of all []uint8 fields reachable by reflection"},
 		Finish:      codecFinish,
 	})
